@@ -104,10 +104,75 @@ EDGE = [0.0, -0.0, 5e-324, -5e-324, 2.2250738585072014e-308, -2.2250738585072014
         7.3, -7.3, 1e15 + 0.3, 123456789.987654321]
 
 
+def kernel_level():
+    """The maps as the kernels use them.
+    (a) What the user configured is what is applied: after constructing a Sampler with periodic=[0], reflective=[1] the caller's
+        lists and the lists the kernel receives are unchanged (a periodic coordinate is wrapped, a reflective one folded).
+    (b) Runner._propose returns designated coordinates inside [0,1] for *every* raw proposal, including a tiny negative one
+        (-1e-300, -1e-17, negative subnormals) with all other coordinates inside the cube: steered through the normal draws."""
+    import tempest, warnings
+    from tempest import mcmc
+    from tempest.modes import ModeStatistics
+    warnings.simplefilter("ignore")
+    per, ref = [0], [1]
+    s = tempest.Sampler(lambda u: u, lambda x: -0.5 * float(np.sum((x - 0.5) ** 2)), n_dim=3, n_particles=12, periodic=per, reflective=ref, random_state=1)
+    cfg = s._core.config
+    got = dict(caller_periodic=list(per), caller_reflective=list(ref), config_periodic=None if cfg.periodic is None else [int(i) for i in cfg.periodic],
+               config_reflective=None if cfg.reflective is None else [int(i) for i in cfg.reflective],
+               kernel_periodic=None if s._core.mutator.periodic is None else [int(i) for i in s._core.mutator.periodic],
+               kernel_reflective=None if s._core.mutator.reflective is None else [int(i) for i in s._core.mutator.reflective])
+    if got["caller_periodic"] != [0] or got["caller_reflective"] != [1] or got["config_periodic"] != [0] or got["config_reflective"] != [1] \
+            or got["kernel_periodic"] != [0] or got["kernel_reflective"] != [1]:
+        return f"after Sampler(periodic=[0], reflective=[1]) the boundary index sets are {got}: a coordinate is no longer mapped as configured", {"probe": "configured-sets"}
+    for kernel, cls in (("rwm", mcmc.RWMRunner), ("tpcn", mcmc.TPCNRunner)):
+        d = 2
+        ms = ModeStatistics(np.full((1, d), 0.5), 0.04 * np.eye(d)[None], np.array([5.0]))
+        for P, R in (([0], None), (None, [0])):
+            for target in (-1e-300, -1e-17, -5e-324, -2.0 ** -54, 1.0 + 2.0 ** -52):
+                try:
+                    r = cls(u=np.array([[0.25, 0.5]]), x=np.array([[0.25, 0.5]]), logl=np.zeros(1), blobs=None, assignments=np.zeros(1, dtype=int), beta=1.0,
+                            mode_stats=ms, log_likelihood=lambda x: (np.zeros(len(x)), None), prior_transform=lambda u: u, progress_bar=None, n_steps=1, n_max=1,
+                            periodic=P, reflective=R, verbose=False)
+                except TypeError:
+                    return None, None          # constructor signature changed: this probe does not apply
+                r.sigmas[:] = 0.5
+                L = ms.chol_covariances[0]
+                u0 = r.u[0].copy()
+                if kernel == "rwm":
+                    z = np.linalg.solve(0.5 * L, np.array([target, 0.5]) - u0)
+                    og = None
+                else:
+                    g = 1.0
+                    mu = ms.means[0]
+                    want = np.array([target, 0.5]) - (mu + np.sqrt(1 - 0.25) * (u0 - mu))
+                    z = np.linalg.solve(0.5 * np.sqrt(1.0 / g) * L, want)
+                o_randn, o_gamma = np.random.randn, np.random.gamma
+                np.random.randn = lambda *a: z.copy()
+                np.random.gamma = lambda *a, **k: 1.0
+                try:
+                    out = np.asarray(r._propose(0), dtype=float)
+                finally:
+                    np.random.randn, np.random.gamma = o_randn, o_gamma
+                raw0 = (u0 + 0.5 * (L @ z))[0] if kernel == "rwm" else None
+                if not (0.0 <= out[0] <= 1.0):
+                    return (f"{kernel}._propose with {'periodic' if P else 'reflective'}=[0]: designated coordinate returned as {out[0]!r} "
+                            f"(outside [0,1]) for a raw proposal near {target!r}"), {"probe": "propose", "kernel": kernel, "target": target}
+    return None, None
+
+
 def main():
     p = json.load(open(sys.argv[1]))
     inp = p.get("input") or {}
     tried = 0
+    if inp.get("v") is None:
+        try:
+            e, what = kernel_level()
+        except Exception as ex:
+            e, what = None, None
+        tried += 1
+        if e:
+            print(json.dumps({"reproduced": True, "detail": e, "tried": tried, "input": what}))
+            return
     if inp.get("v") is not None:
         vals = [tofloat(x) for x in inp["v"]]
         for two_d in ([bool(inp["ndim2"])] if "ndim2" in inp else [False, True]):
